@@ -3,13 +3,16 @@ namespace Yaclib.CoSharedMutex
 
 set_option maxHeartbeats 4000000 in
 theorem inv_step_12 {cfg s l s'} (hi : Inv cfg s) (hs : Step s l s') (hg : grpOf l = 12) : Inv cfg s' := by
-  cases hi
   cases hs with
-  | runW c n h => sm_dbg [List.count_le_length]
+  | runW c n h =>
+      cases hi
+      sm_auto [List.count_le_length]
   | runR c n rest h ht =>
+      have ⟨hn, hnr⟩ := head_pc_torun hi ht
+      cases hi
       by_cases hr : rest = []
-      · simp only [doRunR, hr, ↓reduceIte]; sm_dbg [List.count_le_length]
-      · simp only [doRunR, hr, ↓reduceIte]; sm_dbg [List.count_le_length]
+      · simp only [doRunR, hr, ↓reduceIte]; sm_auto [List.count_le_length]
+      · simp only [doRunR, hr, ↓reduceIte]; sm_auto [List.count_le_length]
   | _ => simp [grpOf] at hg
 
 end Yaclib.CoSharedMutex
